@@ -9,7 +9,11 @@
 //!      differences are modelled there one by one), the return value with the documented one, and every few calls
 //!      the whole observation is taken twice (a getter with a side effect shows as a difference);
 //!   2. STATEMENTS: the four properties are evaluated on the C observations before/after the call
-//!      (capi_props/props.rs).
+//!      (capi_props/props.rs);
+//!   3. RECORD: every call of the glue model (handlers, cand_*, buffer calls, ack, Reset) is a transcript record
+//!      `capiops call …` carrying the call, the facts the glue reads and what the twin actually fed to its Editor plus
+//!      the C return value; the Lean model of capi/src/io.rs (Model/CApiOps.lean) recomputes it (Driver/CApiOps.lean).
+//!      So on every call: Lean model = twin (record), twin = real C context (getter comparison).
 //! Any failure is an oracle verdict `!oracle Cxx new capi_props …` with the profile and the calls so far (the
 //! history is replayable: `capi_props --replay <trace-seed>`).  Histories run in worker child processes: a panic
 //! inside an `extern "C"` function aborts the process (crashes are C01's subject; they are counted and skipped).
@@ -54,7 +58,7 @@ fn gen_key(rng: &mut Rng) -> i32 {
     }
 }
 
-fn gen_ops(rng: &mut Rng, selecting: bool) -> Vec<Op> {
+fn gen_ops(rng: &mut Rng, selecting: bool, selkeys: &[i32]) -> Vec<Op> {
     let w: Vec<u32> = if selecting {
         //   syl nav del open page choose close misc cfg user key
         vec![2, 5, 2, 1, 12, 12, 3, 2, 3, 1, 3]
@@ -82,7 +86,8 @@ fn gen_ops(rng: &mut Rng, selecting: bool) -> Vec<Op> {
         5 => vec![if rng.chance(1, 2) {
             Op::CandChoose(*rng.pick(&[0, 0, 1, 1, 2, 3, 4, 7, 9, 10, 12, 100, -1, -2147483648]))
         } else {
-            Op::Default(*rng.pick(b"1234567890asdfghjkl;q") as i32)
+            // one of the selection keys in force (whatever ints they are), or any key of the fixed list
+            Op::Default(if rng.chance(1, 3) && !selkeys.is_empty() { *rng.pick(selkeys) } else { *rng.pick(&CHOICE_KEYS) })
         }],
         6 => vec![if rng.chance(1, 2) { Op::CandClose } else { Op::Named(*rng.pick(&[N_ESC, N_UP])) }],
         7 => vec![match rng.below(11) {
@@ -109,7 +114,7 @@ fn gen_ops(rng: &mut Rng, selecting: bool) -> Vec<Op> {
             12 => Op::SetOpt(0, *rng.pick(&[0, 1, 2, 3])),
             13 => Op::SetOpt(1, rng.below(2) as i32),
             14 => Op::SetKb(*rng.pick(&[0, 0, 1, 2, 3, 4, 5, 6, 7, 8, 9, 10, 11, 13, 14, 15, 16, 17, -1])),
-            _ => Op::SetSelKeys(rng.below(3) as u8),
+            _ => Op::SetSelKeys(rng.weighted(&[3, 3, 3, 2]) as u8),
         }],
         9 => vec![if rng.chance(2, 3) { Op::UserAdd(rng.below(5) as u8) } else { Op::UserRemove(rng.below(5) as u8) }],
         _ => vec![if rng.chance(1, 12) { Op::Reset } else { Op::Default(gen_key(rng)) }],
@@ -182,6 +187,10 @@ fn trace(out: &mut Out, ctl: &mut Ctl, seed: u64, n_calls: usize, st: &mut Stats
     if rng.chance(1, 5) {
         pending.push(Op::SetOpt(0, *rng.pick(&[0, 2])));
     }
+    // selection keys other than the digits from the start in a quarter of the histories (half of those: ints that are no bytes)
+    if rng.chance(1, 4) {
+        pending.push(Op::SetSelKeys(*rng.pick(&[1, 2, 3, 3])));
+    }
     pending.reverse();
     let mut hist: Vec<String> = vec![];
     let mut pre = unsafe { observe_c(ctx) };
@@ -196,7 +205,7 @@ fn trace(out: &mut Out, ctl: &mut Ctl, seed: u64, n_calls: usize, st: &mut Stats
     while ok && calls < n_calls {
         let ops = match pending.pop() {
             Some(o) => vec![o],
-            None => gen_ops(&mut rng, pre.selecting()),
+            None => gen_ops(&mut rng, pre.selecting(), &pre.selkeys),
         };
         for op in ops {
             calls += 1;
@@ -206,8 +215,30 @@ fn trace(out: &mut Out, ctl: &mut Ctl, seed: u64, n_calls: usize, st: &mut Stats
             if verbose {
                 eprintln!("{} state {} pre {:?}", op.text(), pre_state as char, pre);
             }
+            let facts = glue_facts(&tw);
+            let kb_pre = kb_variant(&tw);
             let rc = unsafe { apply_c(ctx, &op) };
             let m = tw.apply(&op);
+            // transcript record of the call glue (Driver/CApiOps.lean recomputes the right-hand side from the Lean model
+            // of capi/src/io.rs): what the twin fed to its Editor, and the value the REAL C function returned
+            if let (Some((name, arg)), Some(call)) = (op.record_name(), m.call.text()) {
+                let res = match m.res {
+                    Some(true) => "ok",
+                    Some(false) => "err",
+                    None => "-",
+                };
+                out.rec(&format!("capiops call {} {} {} {} => {} {} {}", name, arg, facts, res, kb_pre, call, rc));
+                st.add("glue_records", 1);
+                if pre.selecting() && matches!(op, Op::Default(k) if pre.selkeys.contains(&k)) {
+                    st.add("glue_records_selection_key_under_open_list", 1);
+                }
+                if pre.selecting() && matches!(op, Op::Default(k) if pre.selkeys.contains(&k) && !(0..=255).contains(&k)) {
+                    st.add("glue_records_selection_key_outside_a_byte_under_open_list", 1);
+                }
+                if matches!(op, Op::Default(k) | Op::Numlock(k) | Op::CtrlNum(k) if !(0..=255).contains(&k)) {
+                    st.add("glue_records_key_outside_a_byte", 1);
+                }
+            }
             let post = unsafe { observe_c(ctx) };
             let tpost = observe_twin(&mut tw);
             let post_state = state_of(&post, &tw);
